@@ -1,5 +1,175 @@
 import Asn1Verif.Base.Text
-/- line protocol, stream `tags` — not implemented yet -/
+import Asn1Verif.Codegen.Tags
+/- line protocol, stream `tags` (C16); request grammar: see harness/src/tags.rs -/
 namespace Driver.TagsStream
-def handle (_args : List String) : String := "bad-op"
+open Asn1Verif Asn1Verif.Text Asn1Verif.Codegen.Tags
+
+/-- splits at `sep` outside of `[..]` -/
+def splitTop (sep : Char) (s : String) : List String :=
+  let rec go (cs : List Char) (depth : Nat) (cur : List Char) (acc : List String) : List String :=
+    match cs with
+    | [] => (String.ofList cur.reverse :: acc).reverse
+    | c :: rest =>
+      if c = '[' then go rest (depth + 1) (c :: cur) acc
+      else if c = ']' then go rest (depth - 1) (c :: cur) acc
+      else if c = sep ∧ depth = 0 then go rest depth [] (String.ofList cur.reverse :: acc)
+      else go rest depth (c :: cur) acc
+  go s.toList 0 [] []
+
+def isDigits (cs : List Char) : Bool := !cs.isEmpty && cs.length ≤ 18 && cs.all Char.isDigit
+
+/-- component names: one lower-case letter and digits -/
+def isFieldName (s : String) : Bool :=
+  match s.toList with
+  | c :: rest => c.isLower && rest.all Char.isDigit
+  | [] => false
+
+/-- type names: an upper-case letter, then letters and digits; `Tst…` is reserved for the type
+    under test and the inline types the converter extracts from it -/
+def isTypeName (s : String) : Bool :=
+  match s.toList with
+  | c :: rest => c.isUpper && rest.all Char.isAlphanum && !s.startsWith "Tst"
+  | [] => false
+
+def parseTag (s : String) : Option (Option Tag) :=
+  if s = "-" then some none else
+  match s.toList with
+  | c :: ds =>
+    if isDigits ds then
+      let n := (String.ofList ds).toNat!
+      if c = 'U' then some (some (Tag.universal n))
+      else if c = 'A' then some (some (Tag.application n))
+      else if c = 'C' then some (some (Tag.contextSpecific n))
+      else if c = 'P' then some (some (Tag.priv n))
+      else none
+    else none
+  | [] => none
+
+def builtinOf (s : String) : Option Builtin :=
+  match s with
+  | "bool" => some .boolean
+  | "int" => some .integer
+  | "bits" => some .bitString
+  | "octs" => some .octetString
+  | "null" => some .null
+  | "enum" => some .enumerated
+  | "utf8" => some .utf8String
+  | "num" => some .numericString
+  | "print" => some .printableString
+  | "vis" => some .visibleString
+  | "ia5" => some .ia5String
+  | "seq" => some .sequence
+  | "seqof" => some .sequenceOf
+  | "set" => some .set
+  | "setof" => some .setOf
+  | _ => none
+
+/-- `alts` with the `...` markers removed, and the `extension_after` index the real CHOICE
+    parser computes (`Choice::try_from`: a marker in front of the first alternative or a second
+    marker is a parse error there — such requests are not well-formed here) -/
+partial def parseTy (s : String) : Option Ty :=
+  match builtinOf s with
+  | some k => some (.builtin k)
+  | none =>
+    if s.startsWith "@" then
+      let n := (s.drop 1).toString
+      if isTypeName n then some (.ref n) else none
+    else if s.startsWith "ch[" ∧ s.endsWith "]" then
+      let body := ((s.drop 3).dropEnd 1).toString
+      let rec go (items : List String) (alts : List (Option Tag × Ty)) (ext : Option Nat) :
+          Option Ty :=
+        match items with
+        | [] => if alts.isEmpty then none else some (.choice alts.reverse ext)
+        | "..." :: rest =>
+          if alts.isEmpty || ext.isSome then none else go rest alts (some (alts.length - 1))
+        | it :: rest =>
+          match it.splitOn "~" with
+          | tg :: tyParts =>
+            if tyParts.isEmpty then none else
+            match parseTag tg, parseTy (String.intercalate "~" tyParts) with
+            | some tg, some ty => go rest ((tg, ty) :: alts) ext
+            | _, _ => none
+          | [] => none
+      go (splitTop '|' body) [] none
+    else none
+
+def parseField (s : String) : Option Field :=
+  match s.splitOn ":" with
+  | name :: tg :: tyParts =>
+    if tyParts.isEmpty ∨ !isFieldName name then none else
+    let tys := String.intercalate ":" tyParts
+    let (tys, pres) :=
+      if tys.endsWith "?" then ((tys.dropEnd 1).toString, Presence.optional)
+      else if tys.endsWith "!" then ((tys.dropEnd 1).toString, Presence.default)
+      else (tys, Presence.required)
+    if pres = .default ∧ tys ≠ "bool" ∧ tys ≠ "int" then none else
+    match parseTag tg, parseTy tys with
+    | some tg, some ty => some { name := name, tag := tg, ty := ty, presence := pres }
+    | _, _ => none
+  | _ => none
+
+def parseComponents (s : String) : Option Components :=
+  if s = "-" then some { fields := [], markers := [] } else
+  let rec go (items : List String) (fs : List Field) (ms : List Nat) : Option Components :=
+    match items with
+    | [] => some { fields := fs.reverse, markers := ms.reverse }
+    | "..." :: rest => go rest fs (fs.length :: ms)
+    | it :: rest =>
+      match parseField it with
+      | some f => go rest (f :: fs) ms
+      | none => none
+  go (splitTop ',' s) [] []
+
+def parseDef (s : String) : Option Def :=
+  match s.splitOn "=" with
+  | [name, rest] =>
+    match rest.splitOn ":" with
+    | tg :: tyParts =>
+      if tyParts.isEmpty ∨ !isTypeName name then none else
+      match parseTag tg, parseTy (String.intercalate ":" tyParts) with
+      | some tg, some ty => some { name := name, tag := tg, ty := ty }
+      | _, _ => none
+    | [] => none
+  | _ => none
+
+def parseEnv (s : String) : Option Env :=
+  if s = "-" then some [] else (splitTop ';' s).mapM parseDef
+
+def tagStr (t : Tag) : String :=
+  let c := if t.cls = Consts.TAG_RANK_Universal then "U"
+    else if t.cls = Consts.TAG_RANK_Application then "A"
+    else if t.cls = Consts.TAG_RANK_ContextSpecific then "C"
+    else "P"
+  c ++ toString t.num
+
+def listStr (xs : List String) : String := if xs.isEmpty then "-" else String.intercalate "," xs
+
+def emittedStr (e : Emitted) : String :=
+  let tags := e.order.map fun n =>
+    match e.tags.find? (fun p => p.1 == n) with
+    | some p => tagStr p.2
+    | none => "?"
+  listStr e.order ++ " " ++ listStr tags ++ " " ++
+    (match e.extAfter with | some n => toString n | none => "none") ++ " " ++ tagStr e.ownTag
+
+def run (o : EncodingOrdering) (comps defs : String) : String :=
+  match parseComponents comps, parseEnv defs with
+  | some c, some env =>
+    -- the type under test is a definition of the module as well (`Tst`); it contains no
+    -- reference to itself and nothing refers to it
+    match emit env o c with
+    | none => "abort"
+    | some r => render emittedStr r
+  | _, _ => "bad-op"
+
+def handle (args : List String) : String :=
+  let go (kind comps defs : String) : String :=
+    if kind = "set" ∨ kind = "set!" then run .sort comps defs
+    else if kind = "seq" ∨ kind = "seq!" then run .keep comps defs
+    else "bad-op"
+  match args with
+  | [kind, comps] => go kind comps "-"
+  | [kind, comps, defs] => go kind comps defs
+  | _ => "bad-op"
+
 end Driver.TagsStream
